@@ -2,7 +2,7 @@
 CONTRACT_MODULES = ['contracts.keys_sig']
 CONTRACTS = ['bitcoinlib.keys.Signature.create[rfc6979]', 'bitcoinlib.keys.Signature.create[explicit-k]',
              'bitcoinlib.keys.Signature.__init__', 'bitcoinlib.keys.Signature.verify[digest-given]',
-             'bitcoinlib.keys.verify[signature-object]', 'bitcoinlib.keys.Signature.parse_bytes[raw64]']
+             'bitcoinlib.keys.verify[signature-object]', 'bitcoinlib.keys.Signature.parse_bytes[raw64]', 'bitcoinlib.keys.Signature.parse_bytes[der-native]']
 LEVEL = 'proof'
 LEVEL_TEXT = ('The Python glue around the ECDSA library is verified for all digests, secrets, nonces and (r, s): Signature.create returns exactly '
               'the standard signature under the RFC 6979 nonce of the same digest and secret (or the supplied nonce), with s normalised to '
